@@ -187,3 +187,37 @@ pub fn record(cases: &str, seed: u64, nhist: usize, out: &str) {
     }
     tr.finish();
 }
+
+/// extreme magnitudes (spec/MC_DistExtreme.tla): constructor, setter and bulk update accept exactly the valid values
+pub fn replay_extreme(cases: &str, verdicts: &str) {
+    let mut v = Verdicts::new(verdicts, "C18");
+    for_each_line(cases, |c| {
+        v.cases += 1;
+        let kind = c["kind"].as_str().unwrap();
+        let i = c["i"].as_u64().unwrap() as usize - 1;
+        let (s, e) = (c["s"].as_i64().unwrap() as f64, c["e"].as_i64().unwrap() as i32);
+        let val = s * if e < -1022 { 2f64.powi(-1022) * 2f64.powi(e + 1022) } else { 2f64.powi(e) };
+        let valid = c["valid"].as_bool().unwrap();
+        let base = params_of(kind, &ints(&c["base"]));
+        let mut p = base.clone();
+        p[i] = val;
+        let mag = if s == 0.0 { "zero" } else if e < -1022 { "denormal" } else if e < 0 { "tiny" } else { "huge" };
+        let class = format!("extreme {} {}", mag, if valid { "valid" } else { "invalid" });
+        let id = json!({"kind": kind, "field": i + 1, "value": fj(val), "base": fjs(&base), "valid": valid});
+        let fresh = D::new(kind, &p);
+        v.check(fresh.is_some() == valid, kind, &format!("new {}", class), &id, json!(fresh.is_some()));
+        if let Some(mut o) = D::new(kind, &base) {
+            let before = o.debug();
+            let ok = o.set(i, val);
+            let same = match (&fresh, valid) { (Some(f), true) => o.debug() == f.debug(), (_, false) => o.debug() == before, _ => true };
+            v.check(ok == valid && same, kind, &format!("set{} {}", i + 1, class), &id, json!({"accepted": ok, "state_as_expected": same, "debug": o.debug()}));
+        }
+        if let Some(mut o) = D::new(kind, &base) {
+            let before = o.debug();
+            let ok = o.update(&p);
+            let same = match (&fresh, valid) { (Some(f), true) => o.debug() == f.debug(), (_, false) => o.debug() == before, _ => true };
+            v.check(ok == valid && same, kind, &format!("update {}", class), &id, json!({"accepted": ok, "state_as_expected": same, "debug": o.debug()}));
+        }
+    });
+    v.finish();
+}
